@@ -12,9 +12,9 @@ RULE = ("Hypothesis draws a sequence set (small fully-drawn families, expanded f
         "(kalign(), read+run+dump, read+run+write x3 formats, CLI -o x3 formats, CLI stdout). Oracle: the C01 validity "
         "predicate over the returned rows / the independently parsed file. Non-trivial = >=2 distinct sequences and "
         ">=1 gap in the result; distinct by hash of (inputs, names, config, entry).")
-ASSUMPTIONS = ["names are drawn from [A-Za-z0-9_.|-] without blanks so that MSF/Clustal name columns are unambiguous",
+ASSUMPTIONS = ["names are drawn from [A-Za-z0-9_.|-] for MSF/Clustal (their name column ends at the first blank); FASTA / object entry points also get names with blanks and punctuation",
                "kalign() cannot report how many rows it returns; the probe reads one row per non-empty input"]
-BUDGET = {"quick": dict(examples=250, workers=12, seconds=75),
+BUDGET = {"quick": dict(examples=700, workers=12, seconds=75),
           "thorough": dict(examples=1500, workers=16, seconds=840)}
 
 ENTRIES = ["arr", "dump", "write:fasta", "write:msf", "write:clu", "cli:fasta", "cli:msf", "cli:clu", "stdout:fasta",
@@ -52,7 +52,14 @@ def cases(draw, tier):
         if draw(st.integers(0, 5)) == 0:
             pos = draw(st.integers(0, len(seqs)))
             seqs.insert(pos, "")
-    names = draw(gen.names_for(len(seqs)))
+    if entry in ("arr", "dump", "write:fasta", "cli:fasta", "stdout:fasta") and draw(st.integers(0, 3)) == 0:
+        # FASTA keeps the whole header line as the name: blanks and other printable characters are part of it
+        names = draw(gen.names_for(len(seqs), max_len=40, charset=gen.NAME_CHARS + " /:;,()[]=+#@!$%&*'\"?<~^{}", long_names=False))
+        names = [n.strip() or "n%d" % i for i, n in enumerate(names)]
+        if len(set(names)) != len(names):
+            names = ["%s %d" % (n, i) for i, n in enumerate(names)]
+    else:
+        names = draw(gen.names_for(len(seqs)))
     cfg = {"type": draw(gen.types_for(ss["kind"])), "threads": draw(gen.threads)}
     cfg["gpo"], cfg["gpe"], cfg["tgpe"] = draw(gen.penalties())
     return {"names": names, "seqs": seqs, "cfg": cfg, "entry": entry, "kind": ss["kind"], "shape": ss["shape"]}
@@ -85,6 +92,8 @@ def classes_of(case, rows):
         c.append("explicit_penalty")
     if rows and oracle.has_gap(rows):
         c.append("gapped")
+    if any(" " in n or ":" in n for n in case["names"]):
+        c.append("rich_names")
     return c
 
 
